@@ -62,3 +62,34 @@ def replay(pid, fn, case):
     fn(sub)
     return [(b, i["what"], i["case"]) for b, i in sub.found.items()
             if i["case"].get("kind") == case.get("kind") and i["case"].get("options") == case.get("options")]
+
+
+def dual_pass(ctx, prefix, kind, variants=((7, 11), (1, 3), (19, 23), (13, 20), (64, 5))):
+    """Two clients of one kind in one process, each on its own link, reads interleaved and not aligned with packet boundaries: each
+    delivers exactly what a decoder returns for its own stream."""
+    keys = CONVERTIBLE + FAST + KEYED
+    for pa, pb in variants:
+        ma = standard_traffic(keys, sources=(1,), claims=False)
+        mb = standard_traffic(list(reversed(keys)), sources=(2,), claims=False)
+        ca, cb = aio.render_messages(kind, ma), aio.render_messages(kind, mb)
+        got_a, got_b, s = aio.dual_client_delivery(kind, b"".join(ca), b"".join(cb), pa, pb)
+        ctx.count()
+        ctx.nontrivial_extra += 1
+        ctx.klass("two_clients_in_one_process")
+        case = {"dual": True, "client": kind, "pieces": [pa, pb]}
+        if s.outcome != "ok":
+            ctx.report(f"{prefix}|{kind}|two-clients|{s.outcome}", f"session ended with {s.outcome}: {s.errors[:1]}", case)
+            continue
+        for name, got, chunks in (("first", got_a, ca), ("second", got_b, cb)):
+            exp, _ = aio.bare_decoder_delivery(kind, chunks)
+            if [traffic.canon(m) for m in got] != [traffic.canon(m) for m in exp]:
+                ctx.report(f"{prefix}|{kind}|two-clients|delivery", f"two {kind} clients in one process (reads of {pa} / {pb} bytes alternating): the {name} client delivered "
+                           f"{len(got)} messages {[m.id for m in got][:6]}, a decoder returns {len(exp)} for its stream", case)
+
+
+def dual_replay(pid, prefix, case):
+    from .common import Ctx
+    sub = Ctx(pid)
+    sub.known_open = {}
+    dual_pass(sub, prefix, case["client"])
+    return [(b, v["what"], v["case"]) for b, v in sub.found.items()]
